@@ -17,25 +17,49 @@ def gen_programs(rng, tier):
         dict(tag="unfinalized: dropped image writer", nofin=True, items=[("ID", "s", rng.bytes(1100), rng.bytes(64))]),
         dict(tag="dropped sub-writers, finalized", items=[("PD", P[3], pts(P[3], 2)), ("B", rng.bytes(957)), ("ID", "c", rng.bytes(60), None)]),
     ]
+    # the second public entry point of the top-level finalize, and writers that are used on after it:
+    # the first successful finalize is the commit; every later add_* / finalize must be refused and write nothing
+    progs += [
+        dict(tag="finalize_customized_xml", finx=True, items=[("B", rng.bytes(40)), ("P", P[0], pts(P[0], 4))]),
+        dict(tag="go on after finalize_customized_xml", xfin=True,
+             items=[("P", P[0], pts(P[0], 6)), ("FINX",), ("P", P[1], pts(P[1], 9)), ("B", rng.bytes(30)), ("FIN",)]),
+        dict(tag="go on after finalize", xfin=True,
+             items=[("B", rng.bytes(1000)), ("P", P[2], pts(P[2], 3)), ("FIN",), ("I", "s", rng.bytes(50), rng.bytes(3)), ("P", P[0], pts(P[0], 2)), ("FINX",), ("FIN",)]),
+        dict(tag="finalize twice through the customized entry", xfin=True, items=[("I", "p", rng.bytes(20), None), ("FINX",), ("FINX",), ("B", rng.bytes(5))]),
+    ]
     n_rand = 12 if tier == "quick" else 192
     for i in range(n_rand):
         nofin = rng.chance(1, 5)
         items = [crash.rand_item(rng, allow_dropped=True) for _ in range(rng.range(1, 3))]
-        progs.append(dict(tag="random", nofin=nofin, items=items))
+        prog = dict(tag="random", nofin=nofin, items=items)
+        if not nofin:
+            c = rng.below(6)
+            if c < 2:
+                prog["finx"] = True
+            elif c < 4:
+                # commit in the middle (either entry point), more calls and another finalize behind it
+                more = [crash.rand_item(rng) for _ in range(rng.range(1, 2))]
+                prog = dict(tag="random-go-on", xfin=True,
+                            items=items + [(rng.choice(["FIN", "FINX"]),)] + more + [(rng.choice(["FIN", "FINX"]),)])
+        progs.append(prog)
     return progs
 
 
-def classify_points(points, logmark, nwrites, nofin):
-    """(n, cut) -> 'unfinalized' | 'before-finalize-call' | 'before-header-write' | 'header-write-torn' | 'after'"""
+def classify_points(points, logmark, nwrites, nofin, finlog=None):
+    """(n, cut) -> 'unfinalized' | 'before-finalize-call' | 'before-header-write' | 'header-write-torn' | 'after'.
+    The commit is the final header write of the FIRST successful top-level finalize: write number finlog - 1
+    (finlog = log length when that call returned; without later calls that is the last-but-one write, Drop
+    rewrites the page once more)"""
     out = {}
+    hw = finlog - 1 if finlog is not None else nwrites - 2
     for (n, cut) in points:
         if nofin:
             out[(n, cut)] = "unfinalized"
         elif n < logmark or (n == logmark and cut == 0):
             out[(n, cut)] = "before-finalize-call"
-        elif n < nwrites - 2 or (n == nwrites - 2 and cut == 0):
+        elif n < hw or (n == hw and cut == 0):
             out[(n, cut)] = "before-header-write"
-        elif n == nwrites - 2:
+        elif n == hw:
             out[(n, cut)] = "header-write-torn"
         else:
             out[(n, cut)] = "after"
@@ -47,15 +71,18 @@ ORDER = ["unfinalized", "before-finalize-call", "before-header-write", "header-w
 
 def check_program(rep, prog, impl, stats, rng, only_image=None, model_sample=60):
     text = crash.prog_text(prog)
-    rdict = dict(kind="crash-program", items=[crash.item_tok(i) for i in prog["items"]], nofin=bool(prog.get("nofin")))
+    rdict = dict(kind="crash-program", items=[crash.item_tok(i) for i in prog["items"]], nofin=bool(prog.get("nofin")),
+                 finx=bool(prog.get("finx")), xfin=bool(prog.get("xfin")))
     a = crash.parse_cw(core.run_one(impl, crash.cw_line(prog, flags=("log", "dump"))))
     m_raw = core.run_one(core.DRIVER, crash.cw_line(prog, flags=("log", "dump"), xml=a["xml"] or None))
     rep.count(1)
     if a["crash"] or "P" in a["outs"] or "dropP" in a["outs"]:
         rep.violation("c15-panic", "the writer panicked on a valid program: %s" % " ".join(a["outs"])[:200], rdict)
         return
-    if any(o.startswith("e") or o.startswith("new:") for o in a["outs"]):
+    parts = crash.split_outs(prog, a["outs"])
+    if parts is None or any(o.startswith("e") or o.startswith("new:") for o in parts[0]):
         raise core.InfraError("C15 generator produced a program the writer rejects: %s -> %s" % (text[:200], a["outs"]))
+    after_commit = parts[1]
     log, nofin = a["log"], bool(prog.get("nofin"))
     if crash.apply_log(log) != a["dev"]:
         raise core.InfraError("replaying the recorded write log does not reproduce the device")
@@ -69,7 +96,7 @@ def check_program(rep, prog, impl, stats, rng, only_image=None, model_sample=60)
     points = crash.crash_points(log)
     if only_image is not None:
         points = sorted(set([tuple(only_image), (W, 0)]))
-    cls = classify_points(points, logmark, W, nofin)
+    cls = classify_points(points, logmark, W, nofin, a["finlog"])
     distinct = {}        # bytes -> [points]
     for pt, img in crash.incremental_images(log, points):
         distinct.setdefault(img, []).append(pt)
@@ -140,6 +167,21 @@ def check_program(rep, prog, impl, stats, rng, only_image=None, model_sample=60)
     stats["equal_final"] += eq_final
     if not nofin and accepted == 0:
         rep.violation("c15-complete-file-rejected", "no image of [%s] is accepted, not even the completed file" % text[:150], rdict)
+
+    # ---- the commit is terminal: calls after the first successful top-level finalize are refused and the device
+    #      keeps the committed file (Drop rewrites identical bytes)
+    if a["finlog"] is not None and not direct_bad:
+        committed = crash.apply_log(log, a["finlog"])
+        not_refused = [t for t in after_commit if t != "eInvalid"]
+        if committed != final or not_refused:
+            direct_bad = True
+            stats["commit_not_terminal"] = stats.get("commit_not_terminal", 0) + 1
+            rep.violation("c15-commit-not-terminal",
+                          "after the top-level finalize had returned ok (%d writes) the writer %s; the device after Drop (%d writes) %s the committed file: [%s] -> %s" %
+                          (a["finlog"], "accepted more calls (%s)" % " ".join(not_refused)[:60] if not_refused else "refused all further calls", W,
+                           "differs from" if committed != final else "equals", text[:120], " ".join(a["outs"])[:100]), rdict)
+    if after_commit:
+        stats["calls_after_commit"] = stats.get("calls_after_commit", 0) + len(after_commit)
 
     # ---- correspondence: the write log (positions, bytes, order), results, device
     if not crash.raw_eq(a["raw"], m_raw.rstrip()):
@@ -233,7 +275,8 @@ def run(rep, tier, rng, replay=None):
                  corr_bad=0, traces=0, open_compared=0, open_model_ok_xml_rejected=0, xml_prefixes=0, xml_trailing_whitespace=0)
     only = None
     if replay and replay.get("kind") == "crash-program":
-        progs = [dict(tag="replay", nofin=replay.get("nofin", False), items=[crash.parse_item(t) for t in replay["items"]])]
+        progs = [dict(tag="replay", nofin=replay.get("nofin", False), finx=replay.get("finx", False), xfin=replay.get("xfin", False),
+                      items=[crash.parse_item(t) for t in replay["items"]])]
         only = replay.get("image")
     elif replay and replay.get("kind") == "xml-prefix":
         xml_prefix_check(rep, impl, [replay["xml"]], stats)
@@ -257,10 +300,15 @@ def run(rep, tier, rng, replay=None):
                             "which includes every image from before the top-level finalize call (logmark)",
                    open_results_compared_with_model=stats["open_compared"], model_ok_but_xml_rejected_by_roxmltree=stats["open_model_ok_xml_rejected"],
                    xml_prefixes_tested=stats["xml_prefixes"], xml_trailing_whitespace_bytes=stats["xml_trailing_whitespace"], correspondence_failures=stats["corr_bad"],
-                   traces_validated_against_impl=stats["traces"])
+                   traces_validated_against_impl=stats["traces"],
+                   programs_finalize_customized_xml=sum(1 for p in progs if p.get("finx") or any(i[0] == "FINX" for i in p["items"])),
+                   programs_going_on_after_finalize=sum(1 for p in progs if p.get("xfin")),
+                   calls_after_commit_all_refused=stats.get("calls_after_commit", 0), commit_not_terminal=stats.get("commit_not_terminal", 0))
     rep.sample(dict(kind="crash program", text=crash.prog_text(progs[min(2, len(progs) - 1)])[:200], log_length=stats["log_lengths"][min(2, len(progs) - 1)] if stats["log_lengths"] else 0))
     rep.cov["rule"] = ("small writer programs (no item, empty blob, blob ending on a page boundary, blob crossing a page, images with and without mask, point clouds with a few points, "
-                       "1-3 sections, writer dropped without finalize, point-cloud/image writer dropped without its finalize) on a recording device; for each program EVERY prefix of the "
+                       "1-3 sections, writer dropped without finalize, point-cloud/image writer dropped without its finalize; the top-level finalize through finalize() or through "
+                       "finalize_customized_xml(Ok); writers used on after a successful top-level finalize: more add_* and finalize calls through both entry points, which must be refused "
+                       "and write nothing) on a recording device; for each program EVERY prefix of the "
                        "write log and for the cut write every cut position (writes longer than 64 bytes: cuts 0..48, every 97th byte, the last 3) is replayed on an empty device, identical "
                        "images deduplicated, and the real reader run on each (open, list point clouds and images, read every point cloud raw, every image blob, every blob of the completed file). "
                        "Oracle: no panic; images of an unfinalized writer and images from before the final header write are rejected; an accepted image lists what the completed file lists and "
